@@ -34,6 +34,9 @@ pub mod englib;
 pub mod pager;
 pub mod vacuum;
 pub mod plan;
+pub mod value;
+pub mod sort;
+pub mod agg;
 
 pub fn all() -> Vec<StreamDef> {
     vec![
@@ -53,6 +56,9 @@ pub fn all() -> Vec<StreamDef> {
         plan::def(),
         plan::def_lim(),
         plan::def_where(),
+        value::def(),
+        sort::def(),
+        agg::def(),
     ]
 }
 
